@@ -22,7 +22,14 @@ def gen_case(rs, tier):
         return None
     knobs = common.draw_knobs(krng)
     knobs["env_check"] = krng.random() < 0.1
-    return {"design": ast, "knobs": knobs, "n": krng.choice([0, 1, 2, 3]), "strategies": list(STRATS)}
+    case = {"design": ast, "knobs": knobs, "n": krng.choice([0, 1, 2, 3]), "strategies": list(STRATS)}
+    irng = W.stream(rs, "interleave")
+    if irng.random() < 0.12:
+        # two callers in one process: while the first call of the named strategy waits for its solver, a second caller runs a
+        # whole synthesize_trials of its own (on its own block).  Neither may fail because of the other.
+        case["interleave"] = {"during": irng.choice(["IterateSATGen", "IterateSATGen", "CMSGen", "UniGen"]),
+                              "other": irng.choice(["IterateSATGen", "IterateSATGen", "CMSGen", "RandomGen"]), "n": irng.choice([1, 2])}
+    return case
 
 
 def features(ast, m):
@@ -48,9 +55,21 @@ def run_case(case):
             return common.result_base(w, outcome="skip", reason="constructor-refused:" + type(exc).__name__)
         ran = 0
         viols = []
+        il = case.get("interleave")
+        second = {}
+        if il:
+            blk2, _, exc2 = common.construct(w, ast)        # the second caller's own block (same design, own objects)
+            if exc2 is not None:
+                il = None
         for strat in case["strategies"]:
             w.rng.draws = 0
             w.draw_cap = 4000
+            if il and strat == il["during"] and not second:
+                def other_caller():
+                    w.peer_calls_cap = (w.peer_calls_cap or 0) + 50
+                    second["res"], second["exc"] = common.synth(w, blk2, il["other"], il["n"])
+                second["armed"] = True
+                w.on_solve = other_caller
             try:
                 with common.time_limit(3):
                     res, exc = common.synth(w, blk, strat, case["n"])
@@ -78,6 +97,14 @@ def run_case(case):
             sig = "C08/%s@%s%s/%s%s" % (type(exc).__name__, frame, ("[" + cls + "]") if cls else "",
                                        "sat" if strat != "RandomGen" else "random", ("/" + ",".join(feats)) if feats else "")
             viols.append((sig, "%s raised %s: %s" % (strat, type(exc).__name__, str(exc)[:200])))
+        w.on_solve = None
+        if second.get("exc") is not None:
+            frame, cls = common.innermost_frame_info(second["exc"])
+            viols.append(("C08/%s@%s%s/second-caller" % (type(second["exc"]).__name__, frame, ("[" + cls + "]") if cls else ""),
+                          "a second caller's %s, run while the first waited for its solver, raised %s: %s" % (
+                              il["other"], type(second["exc"]).__name__, str(second["exc"])[:200])))
+        if il and "res" in second:
+            viols = [(sg + ("/with-second-caller" if "second-caller" not in sg else ""), dt) for sg, dt in viols]
         base = common.result_base(w, key=str((dast.skeleton(ast), case["knobs"]["peer"], case["knobs"]["transport"])),
                                   nontrivial=ran >= 2,
                                   summary={"design": dast.describe(ast), "n": case["n"], "peer": case["knobs"]["peer"],
@@ -91,6 +118,10 @@ def run_case(case):
 
 
 def shrink_candidates(case):
+    if case.get("interleave"):
+        c = dict(case)
+        c["interleave"] = None
+        yield c
     yield from common.shrink_case(case)
     if len(case["strategies"]) > 1:
         for s in case["strategies"]:
